@@ -188,7 +188,8 @@ def run_case(case):
                     nm = os.path.basename(p).decode("utf-8", "replace")
                     nlock = len([l for l in w if "lock" in l.lower()])
                     # names are printed shell-quoted; fall back to counting the lock warnings
-                    if not any(nm in l for l in w) and nlock < len(set(locked) & set(drop)):
+                    # (a name with a quote in it is printed as $'..\'..': compare with the backslashes taken out)
+                    if not any(nm in l or nm in l.replace("\\", "") for l in w) and nlock < len(set(locked) & set(drop)):
                         V("lock-failure-reported", "no warning names the locked file %r" % b2s(p))
             others = set(drop) - set(locked) - set(same_inode)
             if not others <= processed:
